@@ -250,6 +250,8 @@ def scenarios(tier, seed):
                     add(ftype, "plain" if ftype == "hist" else "rel", [r1], [m], r2)
     if not q:
         for m1, m2 in itertools.permutations(["add-abs", "add-rel-model", "disable", "constraint", "set-par", "fix", "new-data", "add-x", "add-matrix"], 2):
+            if m1 == "new-data" and m2 == "disable":
+                continue  # raw replacement data start a new container without sources: there is no source 'ey' left to disable
             for r1 in ("cost_function_value", "total_error"):
                 for r2 in ("cost_function_value", "total_cov_mat", "total_error", "goodness_of_fit", "ndf"):
                     add("xy", "rel", [r1], [m1, m2], r2)
